@@ -220,7 +220,9 @@ def polyroots(ctx, coeffs, maxsteps=50, cleanup=True, extraprec=10,
         roots = [roots[i] for i in order]
     if error:
         err = max(err)
-        err = max(err, ctx.ldexp(1, -orig+1))
+        # the roots are rounded to the original precision
+        size = max([1] + [abs(r) for r in roots])
+        err = max(err, ctx.ldexp(size, -orig+1))
         return [+r for r in roots], +err
     else:
         return [+r for r in roots]
